@@ -387,6 +387,12 @@ harness(void) {
 
   rok = ref_decode(in, VP_N, &r);
   VP_ASSERT(!r.overflow, "vp-model: reference decoder capacity");
+#ifdef VP_K
+  /* inputs that the reference splits into at most VP_K fields (the malformed
+     last one included); lcdb's loop bound is VP_K iterations as well, so a
+     disagreement about the number of fields is reported, not cut off */
+  VP_ASSUME(r.nfields <= VP_K);
+#endif
 
   ldb_edit_init(&e);
   src.data = in; src.size = VP_N; src.alloc = 0;
